@@ -27,17 +27,17 @@ def run(v, workdir, replay):
     hists = chainlog.run_chain(v, workdir, "proposals", quick=(16, 2, 10), thorough=(16, 25, 20))
     check(v, hists)
     q = v.tier == "quick"
-    v.need("honest_proposals", 200 if q else 5000)
-    v.need("mutants_must_reject", 1500 if q else 40000)
-    v.need("controls_accepted", 200)
+    v.need("honest_proposals", 150 if q else 4000)
+    v.need("mutants_must_reject", 1000 if q else 30000)
+    v.need("controls_accepted", 100)
     for c in ("flip_commitment_byte", "swap_commitments", "drop_data_item", "duplicate_data_item", "tx_replaced_by_garbage", "tx_truncated",
               "tx_signature_bit_flipped", "tx_body_altered_signature_kept", "tx_duplicated", "append_replayed_committed_tx",
               "append_fatally_failing_tx", "sequenced_data_over_limit_by_one", "same_signer_nonce_order_swapped"):
-        v.need("mutant:" + c, 5)
-    v.need("mutant:group_order_violated", 2)
-    v.need("byte_limit_binding", 5)
-    v.need("sequenced_limit_binding", 2)
-    v.need("multi_group_blocks", 10)
+        v.need("mutant:" + c, 2)
+    v.need("mutant:group_order_violated", 1)
+    v.need("byte_limit_binding", 2)
+    v.need("sequenced_limit_binding", 1)
+    v.need("multi_group_blocks", 4)
 
 
 def check(v, hists):
